@@ -1025,6 +1025,8 @@ class Executor:
         if isinstance(a, Opaque) or isinstance(b, Opaque):
             from . import prelude
             return prelude.opaque_binop(self, op, a, b, node)
+        if isinstance(b, V.Inf) and isinstance(op, ast.Div) and V.is_num(a) and not isinstance(a, V.Inf):
+            return 0            # finite / infinity
         if isinstance(a, V.Inf) or isinstance(b, V.Inf):
             raise OutOfSubset("arithmetic on infinity", node)
         if not (V.is_num(a) and V.is_num(b)):
@@ -1062,12 +1064,24 @@ class Executor:
                     return a ** b
                 if isinstance(b, int) and a != 0:
                     return Fraction(a) ** b
+                if isinstance(b, Fraction) and b.denominator == 1 and b >= 0:
+                    return Fraction(a) ** int(b)
+                if isinstance(b, Fraction) and b == Fraction(1, 2) and a >= 0:
+                    from . import prelude
+                    return prelude.sqrt_term(self, z3.RealVal(str(Fraction(a))))      # n ** 0.5 for a concrete n
                 raise OutOfSubset("power", node)
             if isinstance(b, int) and 0 <= b <= 4:
                 r = 1
                 for _ in range(b):
                     r = _arith(r, a, lambda x, y: x * y)
                 return r
+            if isinstance(b, Fraction) and b.denominator == 1 and 0 <= b.numerator <= 4:
+                return self.binop(op, a, int(b), node)
+            if isinstance(b, Fraction) and b == Fraction(1, 2):
+                from . import prelude
+                az = V.to_z3(V.bool_to_int(a), True)
+                self.safety("sqrt-nonneg", az >= 0, node)
+                return prelude.sqrt_term(self, az)          # x ** 0.5
             if isinstance(a, int) and a == 2 and V.is_int(b):
                 from . import prelude
                 return prelude.pow2(self, b, node)
